@@ -16,10 +16,10 @@ def obligations(tier):
             if tier == "quick" and pv == 2:
                 continue
             obs.append(Ob(f"C09.type/pos={p}/neighbour={pvn}", "pipe", "c_type", {"VF_POS": p, "VF_PV": pv}, t, FN_PIPE,
-                          "24 catalogued types (sizes (n) (p,s) (max) (n CHAR) (*,s), [] suffixes, two-word types, <...> types nested to depth 2, with/without blank after inner commas) x "
+                          "31 catalogued types (sizes (n) (p,s) (max) (n CHAR) (*,s), [] suffixes, two-word types, <...> types nested to depth 2 (three to depth 4 with glued / partly detached closers), with/without blank after inner commas) x "
                           f"5 following option sets (both symbolic); column position {p} of 3; preceding neighbour p int {pvn if pv else ''}", known="angle-brackets-in-one-token"))
     obs.append(Ob("C09.type/after-earlier-statement", "pipe", "c_type_after", {}, t, FN_PIPE,
-                  "a table with a column of any of the 28 catalogued types parsed after one of 6 earlier statements (CHECK in a table / in an ALTER, DEFAULT, <...> type, LIKE, sequence - both symbolic) equals the table alone"))
+                  "a table with a column of any of the 31 catalogued types parsed after one of 8 earlier statements (CHECK in a table / in an ALTER, DEFAULT, <...> type, LIKE, sequence, an unpaired '<' in a view / in an index predicate - both symbolic) equals the table alone"))
     obs += lex_obs("C09", "c_case", ["type_pos"], tier, "lexcase")
     return obs
 
